@@ -83,6 +83,31 @@ def R_region(window, freshlen, W, L, P):
             ('C03:window-covers-fresh-plus-lookback', Implies(L > 0, And(freshlen >= 0, Or(eq(window, P), length(window) >= freshlen + L - 1))))]
 
 
+def searcher_list(se):
+    """the (index, pattern) list of a real searcher object, None for a searcher known only through the interface"""
+    if se.has('_strings'):
+        return se._strings
+    if se.has('_searches'):
+        return se._searches
+    return None
+
+
+def listed_index(v, se, result):
+    """C02 at the level of the Expecter: a reported index is the list index of one of the searcher's own patterns.
+    For the two real searchers this is proved in the verification contexts `exact` (searcher_string) and `re`
+    (searcher_re), contracts/exact.py; a searcher known only through the interface has no list and gets no clause."""
+    lst = searcher_list(se)
+    if lst is None:
+        return []
+    bk = witness(v, 'ss.bk', lst.len, lambda k: lst.get(k)[0] == result)
+    return [('C02:hit.index-is-one-of-the-searchers-patterns', And(0 <= bk, bk < lst.len, eq(lst.get(bk)[0], result)))]
+
+
+def draw_listed_witness(v, se):
+    if not getattr(v, 'concrete', False) and searcher_list(se) is not None:
+        v.g['ss.bk'] = v.draw(T.Int, 'xbk')
+
+
 class DoSearch(Contract):
     name = 'pexpect.expect.Expecter.do_search'
     props = ('C01', 'C02', 'C03')
@@ -135,8 +160,11 @@ class DoSearch(Contract):
                 ('hit.after-is-span', eq(new.after, sub(win, se.start, se.end))),
                 ('hit.rest-follows-span', eq(pend_of(new), sub(win, se.end, length(win)))),
                 ('hit.match', And(same(new.match, se.match), eq(new.match_index, v.result), v.result >= 0)),
-            ]
+            ] + listed_index(v, v.old.self.searcher, v.result)
         return out
+
+    def effects(self, v):
+        draw_listed_witness(v, v.old.self.searcher)
 
 
 class ExistingData(Contract):
@@ -158,6 +186,7 @@ class ExistingData(Contract):
     def effects(self, v):
         v.g['searched_pending'] = True
         v.g['expecter_obj'] = v.args_v['self']      # for the awaited form: who is waiting (contracts/aio.py)
+        draw_listed_witness(v, v.old.self.searcher)
 
     def ensures(self, v):
         old, new = v.old.self.spawn, v.new.self.spawn
@@ -172,7 +201,7 @@ class ExistingData(Contract):
             out += [('hit.conserve', eq(cat(new.before, new.after, pend_of(new)), pend)),
                     ('hit.buffer-is-pending', eq(sbuf_of(new), pend_of(new))),
                     ('hit.match', And(same(new.match, v.new.self.searcher.match), eq(new.match_index, v.result),
-                                      v.result >= 0))]
+                                      v.result >= 0))] + listed_index(v, v.old.self.searcher, v.result)
         return out
 
 
@@ -199,6 +228,9 @@ class NewData(Contract):
             m += [(sp._before, 'content', TStr(k)), (sp._before, 'pos', T.Int)]
         return m
 
+    def effects(self, v):
+        draw_listed_witness(v, v.old.self.searcher)
+
     def ensures(self, v):
         old, new = v.old.self.spawn, v.new.self.spawn
         pend = cat(pend_of(old), v.old.data)          # this is where the received text R grows
@@ -212,7 +244,7 @@ class NewData(Contract):
             out += [('hit.conserve', eq(cat(new.before, new.after, pend_of(new)), pend)),
                     ('hit.buffer-is-pending', eq(sbuf_of(new), pend_of(new))),
                     ('hit.match', And(same(new.match, v.new.self.searcher.match), eq(new.match_index, v.result),
-                                      v.result >= 0))]
+                                      v.result >= 0))] + listed_index(v, v.old.self.searcher, v.result)
         return out
 
 
@@ -430,13 +462,19 @@ class ExpectLoop(Contract):
 
     def effects(self, v):
         expect_effects(v, v.old.self.spawn)
+        draw_listed_witness(v, v.old.self.searcher)
 
     def ensures(self, v):
         me = v.old.self
         se = me.searcher
-        return expect_outcome_post(v, me.spawn, v.new.self.spawn, v.old.timeout,
-                                   eof_index=se.eof_index, timeout_index=se.timeout_index,
-                                   new_searcher=v.new.self.searcher)
+        out = expect_outcome_post(v, me.spawn, v.new.self.spawn, v.old.timeout,
+                                  eof_index=se.eof_index, timeout_index=se.timeout_index,
+                                  new_searcher=v.new.self.searcher)
+        EOFc, TOc = ClassConst('EOF'), ClassConst('TIMEOUT')
+        new = v.new.self.spawn
+        if v.raised is None and not (eq(new.after, EOFc) is True) and not (eq(new.after, TOc) is True):
+            out += listed_index(v, se, v.result)
+        return out
 
 
 def expect_outcome_post(v, old, new, T0, eof_index=None, timeout_index=None, new_searcher=None, plist=None):
@@ -472,6 +510,8 @@ def expect_outcome_post(v, old, new, T0, eof_index=None, timeout_index=None, new
         out += [('C01:hit.conserve', eq(cat(new.before, new.after, pend_of(new)), total)),
                 ('C01:hit.buffer-is-pending', eq(sbuf_of(new), pend_of(new))),
                 ('C02+C04:hit.match-index', And(eq(new.match_index, v.result), v.result >= 0))]
+        if plist is not None:
+            out.append(('C02+C04:hit.index-names-a-listed-pattern', And(v.result < plist.len, pat_is_text(plist.get(v.result)))))
         if new_searcher is not None:
             out.append(('C02:hit.match-object', same(new.match, new_searcher.match)))
     elif is_eof:
@@ -864,6 +904,7 @@ class SearcherReSearch(Contract):
 
     def effects(self, v):
         v.bk = v.draw(T.Int, 'bk')
+        v.g['ss.bk'] = v.bk          # which list entry matched (witness for the callers' listed-index clause)
 
     def ensures(self, v):
         me, new = v.old.self, v.new.self
